@@ -39,7 +39,57 @@ func (o *Obligation) SMT(family string, timeoutMs int, seed int) string {
 		b.WriteString(d)
 		b.WriteByte('\n')
 	}
-	for _, f := range vc.facts[:o.NFacts] {
+	// relevance closure over keyed axioms
+	syms := map[string]bool{}
+	for _, h := range headSymbols(o.Goal.S) {
+		syms[h] = true
+	}
+	for _, h := range headSymbols(o.PC.S) {
+		syms[h] = true
+	}
+	direct := map[string]bool{}
+	for k := range syms {
+		direct[k] = true
+	}
+	include := map[int]bool{}
+	if !o.Pruned {
+		for i := range vc.facts[:o.NFacts] {
+			include[i] = true
+		}
+	} else {
+		for changed := true; changed; {
+			changed = false
+			for i := 0; i < o.NFacts; i++ {
+				keys, keyed := vc.factKeys[i]
+				if !keyed || include[i] {
+					continue
+				}
+				hit := false
+				for _, k := range keys {
+					if strings.HasPrefix(k, "direct:") {
+						if direct[k[7:]] {
+							hit = true
+						}
+						continue
+					}
+					if syms[k] || syms[strings.TrimSuffix(strings.TrimSuffix(k, "!1"), "!0")] {
+						hit = true
+					}
+				}
+				if hit {
+					include[i] = true
+					changed = true
+					for _, h := range headSymbols(vc.facts[i]) {
+						syms[h] = true
+					}
+				}
+			}
+		}
+	}
+	for i, f := range vc.facts[:o.NFacts] {
+		if _, keyed := vc.factKeys[i]; keyed && !include[i] {
+			continue
+		}
 		b.WriteString("(assert ")
 		b.WriteString(f)
 		b.WriteString(")\n")
@@ -135,6 +185,16 @@ func fileName(name string) string {
 
 // Solve discharges one obligation, racing the configured solvers.
 func (o *Obligation) Solve(opts SolveOpts) {
+	if !o.triedPruned && !o.Canary && len(o.vc.factKeys) > 0 {
+		// first attempt: axioms irrelevant to the goal are left out (sound: fewer hypotheses)
+		o.triedPruned = true
+		o.Pruned = true
+		o.Solve(opts)
+		if o.Status == "unsat" {
+			return
+		}
+		o.Pruned = false
+	}
 	dir := opts.OutDir
 	os.MkdirAll(dir, 0o755)
 	base := filepath.Join(dir, fileName(o.Name))
